@@ -379,9 +379,11 @@ theorem gen_fill (buf addr data size : Nat) (x y p : Int) :
       = fillPy addr data size x y p (fill buf addr data size) := by
   unfold PyFun.MachineController_fill fill
   simp only [Int.fmod_eq_emod_of_nonneg _ (by decide : (0 : Int) ≤ 4)]
+  have c1 : ((size : Int) % 4 ≠ 0 ∨ (addr : Int) % 4 ≠ 0) ↔ (size % 4 ≠ 0 ∨ addr % 4 ≠ 0) := by omega
+  have c2 : ((addr : Int) % 4 ≠ 0 ∨ (size : Int) % 4 ≠ 0) ↔ (size % 4 ≠ 0 ∨ addr % 4 ≠ 0) := by omega
+  simp only [c1, c2]
   by_cases hc : size % 4 ≠ 0 ∨ addr % 4 ≠ 0
-  · have hc' : ((size : Int) % 4 ≠ 0 ∨ (addr : Int) % 4 ≠ 0) := by omega
-    simp only [hc, hc', if_true]
+  · simp only [hc, if_true]
     rw [PyFun.pyStructPack]
     swap
     · intro hx; cases hx
@@ -397,8 +399,7 @@ theorem gen_fill (buf addr data size : Nat) (x y p : Int) :
     · have : ¬ ((0 : Int) ≤ (data : Int) ∧ ((data : Int)).toNat < 256 ^ PyFun.PyFmt.B.size) := by
         simp only [PyFun.PyFmt.size]; omega
       simp only [this, hd, if_false, fillPy]
-  · have hc' : ¬ ((size : Int) % 4 ≠ 0 ∨ (addr : Int) % 4 ≠ 0) := by omega
-    simp only [hc, hc', if_false, fillPy, cmdFill, List.nil_append]
+  · simp only [hc, if_false, fillPy, cmdFill, List.nil_append]
     rfl
 
 /-- the hypotheses are satisfiable: a 5-byte write through a 4-byte buffer is two chunks -/
